@@ -1,6 +1,6 @@
 #!/usr/bin/env python3
 """C17 — the location cache is transparent (TTL never / 1 ms / forever x CheckExistence x indexed/linear)."""
-import sys, os, json, copy, collections, re, shutil
+import sys, os, json, copy, collections, re, shutil, random
 sys.path.insert(0, os.path.join(os.path.dirname(os.path.abspath(__file__)), "..", "lib"))
 from vlib import *
 from lochist import *
@@ -379,6 +379,9 @@ def main():
             ops.append(op)
         if not any(o["op"] == "setParents" and o["parents"] for o in ops):
             continue
+        if '"remfact"' in json.dumps(ops):
+            continue        # concurrent actions that remove one fact: which of them finds it is not a function of the history
+
         for l in locs:
             ops += [{"op": "search", "pattern": {"k": "?v"}, "inherited": False, "loc": l}, {"op": "search", "pattern": {"written": "?v"}, "inherited": False, "loc": l},
                     {"op": "listRules", "inherited": False, "loc": l}, {"op": "size", "loc": l}]
@@ -454,6 +457,49 @@ def main():
                 continue
             report(ck, stats, "through the System (ttl=%s, %s state) differs from operating core.Location directly at request %d %s: system=%s direct=%s; history: %s" % (
                 c["ttl"], c["state"], j, canon(op)[:200], ref[j][1][:200], got[j][1][:200], short_hist(lc["ops"], j)), {"case": c, "loc_case": lc, "op_index": j}, "direct-parents")
+
+    # ------------------------------------------------------------------ A3. DeleteLocation while a request holds the location
+    # A request that is in flight holds the instance; DeleteLocation (and further requests) arrive meanwhile; what the holder writes
+    # afterwards is acknowledged and must be seen by every later request under every TTL (the cache model has no delete request:
+    # compared between the TTL settings on the real code)
+    def delete_case(ttl, state, rng):
+        n = "y"
+        srch = {"op": "search", "pattern": {"a": "?v"}, "inherited": False}
+        steps = [{"t": "req", "loc": n, "op": {"op": "addFact", "id": "f0", "fact": {"a": 0}}}, {"t": "open", "h": "A", "loc": n, "check": False}]
+        if rng.random() < 0.5: steps.append({"t": "op", "h": "A", "op": {"op": "addFact", "id": "f1", "fact": {"a": 1}}})
+        steps.append({"t": "req", "loc": n, "op": {"op": "deleteLocation"}})
+        for _ in range(rng.randint(1, 2)): steps.append({"t": "req", "loc": n, "op": rng.choice([srch, {"op": "size"}, {"op": "getFact", "id": "f0"}])})
+        steps.append({"t": "op", "h": "A", "op": {"op": "addFact", "id": "w", "fact": {"a": 7}}})
+        if rng.random() < 0.5: steps.append({"t": "req", "loc": n, "op": dict(srch)})
+        steps += [{"t": "release", "h": "A", "loc": n}, {"t": "req", "loc": n, "op": dict(srch)}, {"t": "req", "loc": n, "op": {"op": "size"}}]
+        return {"kind": "c17.proto", "ttl": ttl, "state": state, "check": False, "steps": steps}
+    dcs = []
+    for r_ in range(6 if not ck.thorough else 60):
+        st_ = rng.random()
+        proto = delete_case("never", "indexed", random.Random(1000 + r_))
+        for state in ("indexed", "linear"):
+            for ttl in ("never", "forever", 40000000):
+                dcs.append(dict(copy.deepcopy(proto), ttl=ttl, state=state))
+    dimpl = run_cases(drv, dcs)
+    def dcanon(c, i):
+        outs = (i or {}).get("outs")
+        if not isinstance(outs, list) or len(outs) != len(c["steps"]): return None
+        t = {}
+        return [canon17(dict(st.get("op") or {"op": st["t"]}, loc="y"), {k: v for k, v in o.items() if k in ("ok", "err")} if st["t"] != "open" else {"ok": True if "ok" in o else None, "err": o.get("err")}, t)
+                for st, o in zip(c["steps"], outs)]
+    for j in range(0, len(dcs), 3):
+        grp = [(dcs[j + d], dcanon(dcs[j + d], dimpl[j + d])) for d in range(3)]
+        stats["delete_held_groups"] += 1
+        for c in grp: ck.count(c[0])
+        ref = grp[0][1]
+        for c, ci in grp[1:]:
+            if ci is None or ref is None:
+                report(ck, stats, "a history with DeleteLocation during a held request could not be run (ttl=%s): %s" % (c["ttl"], canon(dimpl[j])[:200]), {"case": c}, "corr"); break
+            if ci != ref:
+                k = next(k for k in range(len(ci)) if ci[k] != ref[k])
+                report(ck, stats, "results depend on the cache TTL (DeleteLocation while a request holds the location, %s state): step %d %s gives %s under ttl=%s and %s under ttl=never" % (
+                    c["state"], k, canon(c["steps"][k])[:160], str(ci[k][1])[:160], c["ttl"], str(ref[k][1])[:160]), {"case": c, "op_index": k}, "ttl-delete")
+                break
 
     # ------------------------------------------------------------------ B. the exported protocol, step by step
     pcases = []
